@@ -44,6 +44,30 @@ func multiMixCase(kind string, shape []bool, T int64, edOn bool, extra int) *Cas
 	return c
 }
 
+// atomicRefusedCase: an atomic group newer than the latest timestamp that is
+// refused as a whole (schema collision below the leaf a/b; ErrFuture on the
+// stored group at g with a threshold): the latest timestamp must not move.
+func atomicRefusedCase(kind string, T int64) *Case {
+	c := &Case{Family: "multi-mix", Targets: []string{"t"}, Cfg: CfgJ{EventDriven: true}}
+	if kind == "future" {
+		c.Cfg.Thr = 50
+	}
+	grp := func(ts int64, at ...string) *NotiJ {
+		return &NotiJ{TS: ts, Prefix: pfx("t", at...), Atomic: true, Upd: []UpdJ{{Path: pth("x"), Val: ival(ts)}, {Path: pth("y"), Val: ival(2)}}}
+	}
+	c.Ops = append(c.Ops,
+		Op{K: "upd", Now: 10, N: updN(100, pfx("t", "a"), pth("b"), ival(1))},
+		Op{K: "upd", Now: 11, N: grp(5000, "g")},
+		Op{K: "updatemeta", Now: 12})
+	if kind == "collision" {
+		c.Ops = append(c.Ops, Op{K: "upd", Now: 20, N: grp(T, "a", "b", "z")})
+	} else {
+		c.Ops = append(c.Ops, Op{K: "upd", Now: 20, N: grp(T, "g")})
+	}
+	c.Ops = append(c.Ops, Op{K: "updatemeta", Now: 21})
+	return c
+}
+
 func shapes(n int) [][]bool {
 	var out [][]bool
 	for m := 1; m < (1<<n)-1; m++ { // at least one accepted and one refused unit
@@ -57,6 +81,11 @@ func shapes(n int) [][]bool {
 }
 
 func generateMultiMix(e *emitter, o vh.Opts) {
+	for _, kind := range []string{"collision", "future"} {
+		for _, T := range []int64{5051, 6000, 9000} {
+			e.add(atomicRefusedCase(kind, T))
+		}
+	}
 	for _, kind := range refusalKinds {
 		for _, n := range []int{2, 3} {
 			for _, sh := range shapes(n) {
